@@ -558,6 +558,8 @@ def _real_partial_normal_to_complex_partial_normal(ham: Hamiltonian, **kwargs) -
     :func:`~hiten.algorithms.hamiltonian.wrappers._complex_partial_normal_to_real_partial_normal`
         Inverse transformation back to real partial normal form.
     """
+    from hiten.system.libration.collinear import CollinearPoint
+    from hiten.system.libration.triangular import TriangularPoint
     point = kwargs["point"]
     if isinstance(point, CollinearPoint):
         mix_pairs = (1, 2)
@@ -948,6 +950,8 @@ def _real_full_normal_to_complex_full_normal(ham: Hamiltonian, **kwargs) -> Hami
     :func:`~hiten.algorithms.hamiltonian.wrappers._complex_full_normal_to_real_full_normal`
         Inverse transformation back to real full normal form.
     """
+    from hiten.system.libration.collinear import CollinearPoint
+    from hiten.system.libration.triangular import TriangularPoint
     point = kwargs["point"]
     if isinstance(point, CollinearPoint):
         mix_pairs = (1, 2)
